@@ -748,6 +748,33 @@ def r11(db, rep):
         if site:
             break
     if site is None:
+        # no contains_dname() call any more (the selection is written out as a switch / comparisons): the type variable is
+        # the integer local that the guards of the rdata walk - the update_dname call whose result is discarded - test
+        from vlib import cond as _cond
+        idx_, par_ = None, None
+        for h in cands:
+            idx_, par_ = facts.index_fn(h)
+            gh = cfg.FnCFG(h)
+            for x in facts.fn_nodes(h):
+                if x["k"] == "CXXMemberCallExpr" and x.get("cname") == "update_dname":
+                    p_ = par_.get(x["id"])
+                    while p_ is not None and p_["k"] in ("ImplicitCastExpr", "ParenExpr", "ExprWithCleanups"):
+                        p_ = par_.get(p_["id"])
+                    if p_ is not None and (p_["k"] in ("BinaryOperator", "VarDecl", "ReturnStmt")):
+                        continue        # the owner-name walk: its result moves the cursor
+                    vs = []
+                    for op, l, r in _cond.guards_facts(gh, gh.pos(x)):
+                        for e_ in (l, r):
+                            e0 = facts.strip_all(e_) if e_ is not None else None
+                            if e0 is not None and e0["k"] == "DeclRefExpr" and e0.get("var") and not e0.get("parm") and \
+                                    (facts.ty(h, e0) or {}).get("k") in ("int", "enum") and "v" not in e0:
+                                vs.append(e0["var"])
+                    if vs:
+                        site = (h, x, vs[0])
+                        break
+            if site:
+                break
+    if site is None:
         rep.analysis_broken("update_records: the record type variable was not found")
         return
     f, cdcall, typev = site
